@@ -647,8 +647,12 @@ def _decorate_fn_or_cls(decorator,
     # to a CPython bug in type creation.
     if getattr(cls, '__dictoffset__', None) == 0:
       overrides['__slots__'] = ()
-    # Update our overrides with any methods we need to replace.
-    overrides.update(method_overrides)
+    # Update our overrides with any methods we need to replace. A static method
+    # stays static: as a plain function it would receive the instance.
+    for name, method in method_overrides.items():
+      if isinstance(inspect.getattr_static(cls, name), staticmethod):
+        method = staticmethod(method)
+      overrides[name] = method
     # Finally, create the decorated class using the metaclass created above.
     decorated_class = decorating_meta(cls.__name__, (cls,), overrides)
   else:
